@@ -31,6 +31,8 @@ VARIABLES
   \* ---- implementation state
   cache,     \* [Sets -> [Names -> Nat]]   0 = no entry, otherwise template id
   debug,     \* [Sets -> BOOLEAN]
+  glob,      \* [Sets -> 0..1]   the value of the set's global g (Globals are read when a template is executed)
+  opt,       \* [Sets -> BOOLEAN] the set's TrimBlocks option (a template copies the options when it is created)
   mutex,     \* [Sets -> Threads \cup {None}]
   file,      \* [Names -> 0..MaxVer]       0 = absent, shared file system
   bannedT,   \* [Sets -> SUBSET Vocab]
@@ -41,6 +43,7 @@ VARIABLES
   \* ---- ghost state
   nextId,    \* next fresh template id
   tplVer,    \* id -> file version it was compiled from (function over 1..nextId-1)
+  tplOpt,    \* id -> the TrimBlocks option the template was created with
   tplEpoch,  \* id -> epoch of (set,name) in which it was loaded through the cache; 0 = bypass
   epoch,     \* [Sets -> [Names -> Nat]] number of cleans of that entry so far
   loads,     \* [Sets -> [Names -> Nat]] successful cache loads in the current epoch
@@ -50,8 +53,8 @@ VARIABLES
   hist,      \* sequence of completed operations / environment steps, in linearization order
   sched      \* sequence of all steps taken (action name, thread, arguments): the schedule to replay
 
-implVars  == <<cache, debug, mutex, file, bannedT, bannedF, frozen, pc, cur>>
-ghostVars == <<nextId, tplVer, tplEpoch, epoch, loads, fetches, nops, nenv>>
+implVars  == <<cache, debug, glob, opt, mutex, file, bannedT, bannedF, frozen, pc, cur>>
+ghostVars == <<nextId, tplVer, tplOpt, tplEpoch, epoch, loads, fetches, nops, nenv>>
 vars      == <<implVars, ghostVars, hist, sched>>
 viewNoHist == <<implVars, ghostVars>>
 viewNoSched == <<implVars, ghostVars, hist>>
@@ -71,6 +74,7 @@ TypeOK ==
 Init ==
   /\ cache = [s \in Sets |-> [n \in Names |-> 0]]
   /\ debug = [s \in Sets |-> FALSE]
+  /\ glob = [s \in Sets |-> 0] /\ opt = [s \in Sets |-> FALSE]
   /\ mutex = [s \in Sets |-> None]
   /\ file \in [Names -> 0..1]
   /\ bannedT = [s \in Sets |-> {}]
@@ -79,7 +83,7 @@ Init ==
   /\ pc = [t \in Threads |-> "idle"]
   /\ cur = [t \in Threads |-> NoOp]
   /\ nextId = 1
-  /\ tplVer = <<>>
+  /\ tplVer = <<>> /\ tplOpt = <<>>
   /\ tplEpoch = <<>>
   /\ epoch = [s \in Sets |-> [n \in Names |-> 1]]
   /\ loads = [s \in Sets |-> [n \in Names |-> 0]]
@@ -96,6 +100,7 @@ Done(t, rec) == hist' = Append(hist, rec @@ [t |-> t])
 Reset(f) ==
   /\ cache' = [s \in Sets |-> [n \in Names |-> 0]]
   /\ debug' = [s \in Sets |-> FALSE]
+  /\ glob' = [s \in Sets |-> 0] /\ opt' = [s \in Sets |-> FALSE]
   /\ mutex' = [s \in Sets |-> None]
   /\ file' = f
   /\ bannedT' = [s \in Sets |-> {}]
@@ -104,7 +109,7 @@ Reset(f) ==
   /\ pc' = [t \in Threads |-> "idle"]
   /\ cur' = [t \in Threads |-> NoOp]
   /\ nextId' = 1
-  /\ tplVer' = <<>>
+  /\ tplVer' = <<>> /\ tplOpt' = <<>>
   /\ tplEpoch' = <<>>
   /\ epoch' = [s \in Sets |-> [n \in Names |-> 1]]
   /\ loads' = [s \in Sets |-> [n \in Names |-> 0]]
@@ -128,16 +133,17 @@ FcBegin(t, s, n) ==
        THEN /\ fetches' = [fetches EXCEPT ![s][n] = @ + 1]
             /\ IF file[n] = Absent
                  THEN /\ Done(t, [op |-> "FromCache", s |-> s, n |-> n, res |-> 0, how |-> "bypass", ver |-> 0])
-                      /\ UNCHANGED <<nextId, tplVer, tplEpoch>>
-                 ELSE /\ Done(t, [op |-> "FromCache", s |-> s, n |-> n, res |-> nextId, how |-> "bypass", ver |-> file[n]])
+                      /\ UNCHANGED <<nextId, tplVer, tplOpt, tplEpoch>>
+                 ELSE /\ Done(t, [op |-> "FromCache", s |-> s, n |-> n, res |-> nextId, how |-> "bypass", ver |-> file[n], g |-> glob[s], o |-> opt[s]])
                       /\ nextId' = nextId + 1
                       /\ tplVer' = Append(tplVer, file[n])
                       /\ tplEpoch' = Append(tplEpoch, 0)
+                      /\ tplOpt' = Append(tplOpt, opt[s])
             /\ UNCHANGED <<pc, cur>>
        ELSE /\ pc' = [pc EXCEPT ![t] = "fcwait"]
             /\ cur' = [cur EXCEPT ![t] = [NoOp EXCEPT !.op = "FromCache", !.s = s, !.n = n]]
-            /\ UNCHANGED <<fetches, nextId, tplVer, tplEpoch, hist>>
-  /\ UNCHANGED <<cache, debug, mutex, file, bannedT, bannedF, epoch, loads, nenv>>
+            /\ UNCHANGED <<fetches, nextId, tplVer, tplOpt, tplEpoch, hist>>
+  /\ UNCHANGED <<cache, debug, glob, opt, mutex, file, bannedT, bannedF, epoch, loads, nenv>>
 
 FcLock(t) ==
   /\ Sched("FcLock", t, cur[t].s, cur[t].n, 0)
@@ -145,7 +151,7 @@ FcLock(t) ==
   /\ mutex[cur[t].s] = None
   /\ mutex' = [mutex EXCEPT ![cur[t].s] = t]
   /\ pc' = [pc EXCEPT ![t] = "fccrit"]
-  /\ UNCHANGED <<cache, debug, file, bannedT, bannedF, frozen, cur, ghostVars, hist>>
+  /\ UNCHANGED <<cache, debug, glob, opt, file, bannedT, bannedF, frozen, cur, ghostVars, hist>>
 
 \* lookup; on a miss load+compile (may fail) and store.  One step: the whole region runs under the mutex.
 FcCrit(t) ==
@@ -156,20 +162,21 @@ FcCrit(t) ==
   /\ IF cache[s][n] # 0
        THEN \* hit
             /\ cur' = [cur EXCEPT ![t].res = cache[s][n], ![t].ep = epoch[s][n]]
-            /\ UNCHANGED <<cache, nextId, tplVer, tplEpoch, loads, fetches, frozen>>
+            /\ UNCHANGED <<cache, nextId, tplVer, tplOpt, tplEpoch, loads, fetches, frozen>>
        ELSE \* miss: FromFile (freezes the set, reads through the loaders)
             /\ fetches' = [fetches EXCEPT ![s][n] = @ + 1]
             /\ frozen' = [frozen EXCEPT ![s] = TRUE]
             /\ IF file[n] = Absent
                  THEN /\ cur' = [cur EXCEPT ![t].res = 0, ![t].ep = epoch[s][n]]
-                      /\ UNCHANGED <<cache, nextId, tplVer, tplEpoch, loads>>
+                      /\ UNCHANGED <<cache, nextId, tplVer, tplOpt, tplEpoch, loads>>
                  ELSE /\ cache' = [cache EXCEPT ![s][n] = nextId]
                       /\ cur' = [cur EXCEPT ![t].res = nextId, ![t].ep = epoch[s][n]]
                       /\ nextId' = nextId + 1
                       /\ tplVer' = Append(tplVer, file[n])
                       /\ tplEpoch' = Append(tplEpoch, epoch[s][n])
+                      /\ tplOpt' = Append(tplOpt, opt[s])
                       /\ loads' = [loads EXCEPT ![s][n] = @ + 1]
-  /\ UNCHANGED <<debug, mutex, file, bannedT, bannedF, epoch, nops, nenv, hist>>
+  /\ UNCHANGED <<debug, glob, opt, mutex, file, bannedT, bannedF, epoch, nops, nenv, hist>>
 
 FcUnlock(t) ==
   /\ Sched("FcUnlock", t, cur[t].s, cur[t].n, cur[t].res)
@@ -177,9 +184,11 @@ FcUnlock(t) ==
   /\ mutex' = [mutex EXCEPT ![cur[t].s] = None]
   /\ pc' = [pc EXCEPT ![t] = "idle"]
   /\ Done(t, [op |-> "FromCache", s |-> cur[t].s, n |-> cur[t].n, res |-> cur[t].res, how |-> "cache",
-              ver |-> IF cur[t].res = 0 THEN 0 ELSE tplVer[cur[t].res]])
+              ver |-> IF cur[t].res = 0 THEN 0 ELSE tplVer[cur[t].res],
+              \* executing the template right away shows the set's global as it is now and the option it was created with
+              g |-> glob[cur[t].s], o |-> IF cur[t].res = 0 THEN FALSE ELSE tplOpt[cur[t].res]])
   /\ cur' = [cur EXCEPT ![t] = NoOp]
-  /\ UNCHANGED <<cache, debug, file, bannedT, bannedF, frozen, ghostVars>>
+  /\ UNCHANGED <<cache, debug, glob, opt, file, bannedT, bannedF, frozen, ghostVars>>
 
 ----------------------------------------------------------------------------
 (* CleanCache() / CleanCache(n) / CleanCache(x, n): several names in one call, the first of which the cache has never held *)
@@ -191,8 +200,8 @@ CcBegin(t, s, n, all, pre) ==
   /\ nops' = [nops EXCEPT ![t] = @ + 1]
   /\ pc' = [pc EXCEPT ![t] = "ccwait"]
   /\ cur' = [cur EXCEPT ![t] = [NoOp EXCEPT !.op = "CleanCache", !.s = s, !.n = n, !.all = all, !.pre = pre]]
-  /\ UNCHANGED <<cache, debug, mutex, file, bannedT, bannedF, frozen,
-                 nextId, tplVer, tplEpoch, epoch, loads, fetches, nenv, hist>>
+  /\ UNCHANGED <<cache, debug, glob, opt, mutex, file, bannedT, bannedF, frozen,
+                 nextId, tplVer, tplOpt, tplEpoch, epoch, loads, fetches, nenv, hist>>
 
 CcLock(t) ==
   /\ Sched("CcLock", t, cur[t].s, cur[t].n, 0)
@@ -200,7 +209,7 @@ CcLock(t) ==
   /\ mutex[cur[t].s] = None
   /\ mutex' = [mutex EXCEPT ![cur[t].s] = t]
   /\ pc' = [pc EXCEPT ![t] = "cccrit"]
-  /\ UNCHANGED <<cache, debug, file, bannedT, bannedF, frozen, cur, ghostVars, hist>>
+  /\ UNCHANGED <<cache, debug, glob, opt, file, bannedT, bannedF, frozen, cur, ghostVars, hist>>
 
 CcCrit(t) ==
   LET s == cur[t].s IN
@@ -211,8 +220,8 @@ CcCrit(t) ==
      /\ cache' = [cache EXCEPT ![s] = [n \in Names |-> IF hit(n) THEN 0 ELSE cache[s][n]]]
      /\ epoch' = [epoch EXCEPT ![s] = [n \in Names |-> IF hit(n) THEN epoch[s][n] + 1 ELSE epoch[s][n]]]
      /\ loads' = [loads EXCEPT ![s] = [n \in Names |-> IF hit(n) THEN 0 ELSE loads[s][n]]]
-  /\ UNCHANGED <<debug, mutex, file, bannedT, bannedF, frozen, cur,
-                 nextId, tplVer, tplEpoch, fetches, nops, nenv, hist>>
+  /\ UNCHANGED <<debug, glob, opt, mutex, file, bannedT, bannedF, frozen, cur,
+                 nextId, tplVer, tplOpt, tplEpoch, fetches, nops, nenv, hist>>
 
 CcUnlock(t) ==
   /\ Sched("CcUnlock", t, cur[t].s, cur[t].n, 0)
@@ -222,7 +231,7 @@ CcUnlock(t) ==
   /\ Done(t, [op |-> "CleanCache", s |-> cur[t].s, n |-> cur[t].n, res |-> 0,
               how |-> IF cur[t].all THEN "all" ELSE IF cur[t].pre THEN "pre" ELSE "one", ver |-> 0])
   /\ cur' = [cur EXCEPT ![t] = NoOp]
-  /\ UNCHANGED <<cache, debug, file, bannedT, bannedF, frozen, ghostVars>>
+  /\ UNCHANGED <<cache, debug, glob, opt, file, bannedT, bannedF, frozen, ghostVars>>
 
 ----------------------------------------------------------------------------
 (* Environment *)
@@ -234,8 +243,26 @@ SetDebug(s, b) ==
   /\ debug' = [debug EXCEPT ![s] = b]
   /\ hist' = Append(hist, [op |-> "SetDebug", s |-> s, n |-> None, res |-> IF b THEN 1 ELSE 0,
                            how |-> "env", ver |-> 0, t |-> None])
-  /\ UNCHANGED <<cache, mutex, file, bannedT, bannedF, frozen, pc, cur,
-                 nextId, tplVer, tplEpoch, epoch, loads, fetches, nops>>
+  /\ UNCHANGED <<cache, glob, opt, mutex, file, bannedT, bannedF, frozen, pc, cur,
+                 nextId, tplVer, tplOpt, tplEpoch, epoch, loads, fetches, nops>>
+
+\* the set's global g and its TrimBlocks option: plain fields the application writes (before it shares the set)
+SetGlobal(s, v) ==
+  /\ Sched("SetGlobal", None, s, None, v)
+  /\ nenv < MaxEnv /\ glob[s] # v
+  /\ nenv' = nenv + 1
+  /\ glob' = [glob EXCEPT ![s] = v]
+  /\ hist' = Append(hist, [op |-> "SetGlobal", s |-> s, n |-> None, res |-> v, how |-> "env", ver |-> 0, t |-> None])
+  /\ UNCHANGED <<cache, debug, opt, mutex, file, bannedT, bannedF, frozen, pc, cur,
+                 nextId, tplVer, tplOpt, tplEpoch, epoch, loads, fetches, nops>>
+SetOpt(s, b) ==
+  /\ Sched("SetOpt", None, s, None, IF b THEN 1 ELSE 0)
+  /\ nenv < MaxEnv /\ opt[s] # b
+  /\ nenv' = nenv + 1
+  /\ opt' = [opt EXCEPT ![s] = b]
+  /\ hist' = Append(hist, [op |-> "SetOpt", s |-> s, n |-> None, res |-> IF b THEN 1 ELSE 0, how |-> "env", ver |-> 0, t |-> None])
+  /\ UNCHANGED <<cache, debug, glob, mutex, file, bannedT, bannedF, frozen, pc, cur,
+                 nextId, tplVer, tplOpt, tplEpoch, epoch, loads, fetches, nops>>
 
 ChangeFile(n, v) ==
   /\ Sched("ChangeFile", None, None, n, v)
@@ -244,8 +271,8 @@ ChangeFile(n, v) ==
   /\ file' = [file EXCEPT ![n] = v]
   /\ hist' = Append(hist, [op |-> "ChangeFile", s |-> None, n |-> n, res |-> v,
                            how |-> "env", ver |-> v, t |-> None])
-  /\ UNCHANGED <<cache, debug, mutex, bannedT, bannedF, frozen, pc, cur,
-                 nextId, tplVer, tplEpoch, epoch, loads, fetches, nops>>
+  /\ UNCHANGED <<cache, debug, glob, opt, mutex, bannedT, bannedF, frozen, pc, cur,
+                 nextId, tplVer, tplOpt, tplEpoch, epoch, loads, fetches, nops>>
 
 ----------------------------------------------------------------------------
 (* Sandbox (C03): bans and compilation. `uses` is the set of tag names and *)
@@ -270,8 +297,8 @@ Ban(t, s, kind, x) ==
             /\ bannedF' = IF kind = "filter" THEN [bannedF EXCEPT ![s] = @ \cup {x}] ELSE bannedF
             /\ Done(t, [op |-> "Ban", s |-> s, n |-> x, res |-> 1, how |-> kind, ver |-> 0,
                         bt |-> bannedT'[s], bf |-> bannedF'[s], fr |-> frozen[s]])
-  /\ UNCHANGED <<cache, debug, mutex, file, frozen, pc, cur,
-                 nextId, tplVer, tplEpoch, epoch, loads, fetches, nenv>>
+  /\ UNCHANGED <<cache, debug, glob, opt, mutex, file, frozen, pc, cur,
+                 nextId, tplVer, tplOpt, tplEpoch, epoch, loads, fetches, nenv>>
 
 \* From{String,Bytes,File}, Render*: freeze, then compile; fails iff a banned name is used.
 CompileOK(s, usesT, usesF) == usesT \cap bannedT[s] = {} /\ usesF \cap bannedF[s] = {}
@@ -284,8 +311,8 @@ Compile(t, s, usesT, usesF, how) ==
   /\ Done(t, [op |-> "Compile", s |-> s, n |-> <<usesT, usesF>>, how |-> how,
               res |-> IF CompileOK(s, usesT, usesF) THEN 1 ELSE 0, ver |-> 0,
               bt |-> bannedT[s], bf |-> bannedF[s], fr |-> TRUE])
-  /\ UNCHANGED <<cache, debug, mutex, file, bannedT, bannedF, pc, cur,
-                 nextId, tplVer, tplEpoch, epoch, loads, fetches, nenv>>
+  /\ UNCHANGED <<cache, debug, glob, opt, mutex, file, bannedT, bannedF, pc, cur,
+                 nextId, tplVer, tplOpt, tplEpoch, epoch, loads, fetches, nenv>>
 
 ----------------------------------------------------------------------------
 NextCache ==
@@ -294,6 +321,8 @@ NextCache ==
   \/ \E t \in Threads, s \in Sets, n \in Names, pre \in BOOLEAN : CcBegin(t, s, n, FALSE, pre)
   \/ \E t \in Threads, s \in Sets : CcBegin(t, s, CHOOSE n \in Names : TRUE, TRUE, FALSE)
   \/ \E s \in Sets, b \in BOOLEAN : SetDebug(s, b)
+  \/ \E s \in Sets, v \in 0..1 : SetGlobal(s, v)
+  \/ \E s \in Sets, b \in BOOLEAN : SetOpt(s, b)
   \/ \E n \in Names, v \in 0..MaxVer : ChangeFile(n, v)
 
 NextBan ==
@@ -348,6 +377,7 @@ SetsIndependent ==
   [][\A t \in Threads :
        (pc[t] # "idle" /\ pc'[t] # pc[t]) =>
           \A s \in Sets \ {cur[t].s} : /\ cache'[s] = cache[s] /\ debug'[s] = debug[s] /\ mutex'[s] = mutex[s]
+                                      /\ glob'[s] = glob[s] /\ opt'[s] = opt[s]
                                       /\ bannedT'[s] = bannedT[s] /\ bannedF'[s] = bannedF[s]
                                       /\ frozen'[s] = frozen[s]]_vars
 
